@@ -673,13 +673,18 @@ def run_apply_case(ctx, case, verbose=False):
             ctx.count("multi:run-resumes-a-file-that-failed-twice(first after >=1 statement)")
         snapshot(db, db + ".before")
         before = dump_db(db)
-        args, (rc, out, err) = cli_apply(ctx, d, mdir, db, mode, extra=extra, fk=fk, busy=busy)
+        rmode = (case.get("rerun_modes") or [mode])[min(rounds, len(case.get("rerun_modes") or [mode])) - 1]
+        if rmode != mode:
+            eff = eff_of(nxt) if nxt and case["directives"][nxt[0]] else rmode
+        args, (rc, out, err) = cli_apply(ctx, d, mdir, db, rmode, extra=extra, fk=fk, busy=busy)
         after = dump_db(db)
-        expk = L.expect_apply(files_k, sums_k, cur, mode, None, nxt, fk)
+        expk = L.expect_apply(files_k, sums_k, cur, rmode, None, nxt, fk)
         if multi:
-            ctx.count("multi:rerun|mode=%s|file-mode=%s|%s" % (mode, eff, "expected-failure" if expk.fails else "expected-success"))
+            ctx.count("multi:rerun|mode=%s|file-mode=%s|%s" % (rmode, eff, "expected-failure" if expk.fails else "expected-success"))
+        if rmode != mode and expk.fails and cur.partial >= 1 and rmode in ("file", "all"):
+            ctx.count("mode-switch:partial-revision-of-none-mode-resumed-under-%s-and-fails-again" % rmode)
         prev = cur
-        cur = j.judge("rerun", prev, expk, before, after, db + ".before", rc, out, err, args, eff, mode)
+        cur = j.judge("rerun", prev, expk, before, after, db + ".before", rc, out, err, args, eff, rmode)
         if cur is None:
             return ev
         note_partial(cur, files_k)
@@ -822,6 +827,36 @@ def run_schema_case(ctx, case, verbose=False):
                       {"args": args, "rc": rc, "diff": df[:12], "stdout": tail(out, 1500)})
     else:
         ev.add(verdict="held", phase="schema-dry-run", rc=rc, planned_keywords=nplanned, stdout=tail(out, 1500))
+    # whatever the exit status, a command line that contains --dry-run must change nothing: combine it with
+    # --auto-approve (cobra rejects the pair on the unchanged tree) with and without --format, in both flag orders
+    # … for a plan that would SUCCEED if it were applied (the failing-plan pairs roll back anyway)
+    d2 = os.path.join(d, "benign")
+    os.makedirs(d2, exist_ok=True)
+    base = schema_args(d2, db, dict(case, fmt=False), L.desired_ddl(case["pre"] or ["addtable"], None), ctx, dry=True)
+    if base is None:
+        ctx.inconclusive("setup-inspect-desired")
+        return ev
+    base = [a for a in base if a != "--dry-run"]
+    combos = [["--dry-run", "--auto-approve"], ["--auto-approve", "--dry-run", "--format", "{{ json . }}"],
+              ["--format", "{{ json . }}", "--dry-run", "--auto-approve"], ["--dry-run"], ["--dry-run", "--format", "{{ json . }}"]]
+    ci = len(case["pre"]) + len(case["form"]) + (1 if case["fmt"] else 0)
+    for extra_flags in (combos if not ctx.quick() else [combos[1 + ci % 2], combos[[0, 3, 4][ci % 3]]]):
+        argsD = base + extra_flags + (["--tx-mode", case["txflag"]] if case["txflag"] else [])
+        rcD, outD, errD = run_stdin(ctx, argsD, d2, b"\n")
+        afterD = strict_dump(db)
+        if rcD == 124:
+            ctx.inconclusive("watchdog")
+            continue
+        ctx.eval(digest("schema-dry+auto", extra_flags, rcD, tail(errD, 80)), nontrivial=True)
+        if "--auto-approve" in extra_flags:
+            ctx.count("dry-run:schema-apply+auto-approve")
+        ctx.count("dry-run:schema-apply(succeeding plan)|%s%s|%s" % ("+auto-approve" if "--auto-approve" in extra_flags else "", "+format" if "--format" in extra_flags else "", "rejected" if rcD else "rc=0"))
+        if before != afterD:
+            df = diff_full(before, afterD)
+            ev.add(verdict="violated", what="schema apply with --dry-run (and --auto-approve) changed the database", diff=df)
+            ctx.violation("C13|dry-run|schema-apply|database-changed", "schema apply with --dry-run on the command line changed the database",
+                          dict(case, sub="dry+auto", flags=extra_flags), {"args": argsD, "rc": rcD, "diff": df[:12], "stdout": tail(outD, 800), "stderr": tail(errD, 300)})
+            return ev
     # sibling run in none mode on a copy: shows whether this plan really fails MIDWAY (evidence only; the
     # property claims the default mode)
     db2 = os.path.join(d, "y.db")
@@ -1042,6 +1077,14 @@ def main():
     apply_sel = select(ctx, apply_candidates(ctx), ctx.pick(170, 1700), apply_projs)
     resumed, other = multi_candidates(ctx)
     multi_sel = select(ctx, resumed, ctx.pick(14, 120), multi_projs) + select(ctx, other, ctx.pick(26, 240), multi_projs)
+    # the same sequences with the tx-mode SWITCHED between the failing none-mode run and the re-runs (which fail again)
+    sw_pool = [c for c in resumed if c["mode"] == "none" and not any(c["directives"])]
+    switch_sel = []
+    for i, c in enumerate(select(ctx, sw_pool, ctx.pick(10, 80), lambda c: [("s", len(c["fails"]), c["start"], c["shape_id"])])):
+        c = dict(c, rerun_modes=[["file"], ["all"], ["file", "all"], ["all", "file"]][i % 4], dk="switch")
+        switch_sel.append(c)
+        ctx.count("mode-switch|none->%s|failures=%d" % ("->".join(c["rerun_modes"]), len(c["fails"])))
+    multi_sel += switch_sel
     for c in multi_sel:
         ctx.count("multi|mode=%s|file-mode=%s|failures=%d|same-file=%s" % (c["mode"], c["directives"][c["fail"][0]] or c["mode"], len(c["fails"]), c["samefile"]))
     fix_sel = select(ctx, fix_candidates(ctx), ctx.pick(40, 260), fix_projs)
@@ -1096,6 +1139,8 @@ def main():
             "apply-failure-model:statement failed in none mode", "final-compared-with-clean-run",
             "multi:run-resumes-a-file-that-failed-twice(first after >=1 statement)", "schema-fail|approve=prompt|midway-proven",
             "all-mode:failure-after-a-statement-less-first-pending-file", "all-mode:failure-after-100-or-more-files-of-one-run",
+            "mode-switch:partial-revision-of-none-mode-resumed-under-file-and-fails-again",
+            "mode-switch:partial-revision-of-none-mode-resumed-under-all-and-fails-again", "dry-run:schema-apply+auto-approve",
             "checkpoint:last-checkpoint-fails-without-transaction-and-is-resumed", "directive-spelling:non-canonical-directive-decides-the-outcome", "schema:none-mode-sibling|left-partial-changes", "schema-fail|path=alter|midway-proven", "schema-fail|path=rebuild|midway-proven"]
     missing = [k for k in need if not ctx.counters.get(k)]
     if not any(k.startswith("dry-run:migrate-apply|") and k.endswith("statements-shown") for k in ctx.counters):
